@@ -199,6 +199,9 @@ where
 {
     let tx = safe_apply_args(tx, args)?;
 
+    // the first pass must not see the body of whatever the instance compiled before
+    compiler.reset();
+
     let max_optimize_rounds = max_optimize_rounds.max(3);
 
     let mut last_eval = None;
